@@ -433,6 +433,20 @@ class SList(Opaque):
         if name == "append":
             self.append(itp, args[0])
             return None
+        if name == "insert" and isinstance(args[0], int) and args[0] == 0:
+            old_len, old_elem, v = self.length, self.elem, args[1]
+
+            def new_elem(i):
+                c = T.eq(i, 0)
+                if c is True:
+                    return v
+                if c is False:
+                    return old_elem(T.sub(i, 1))
+                return ite_value(c, v, lambda: old_elem(T.sub(i, 1)))
+            self.elem = new_elem
+            self.length = T.add(old_len, 1)
+            self.writes += 1
+            return None
         raise Unsupported(f"symbolic list method {name}")
 
     def getitem(self, itp, sel):
@@ -471,7 +485,7 @@ def ite_value(c, a, b_thunk):
         return wrap(T.ite(c, term_of(a), term_of(b)))
     if isinstance(a, SArr) and isinstance(b, SArr) and len(a.shape) == len(b.shape):
         ga, gb = a.getter(), b.getter()
-        shape = a.shape  # shapes are required equal by the contract that builds such lists
+        shape = tuple(ea if T.same(ea, eb) else T.ite(c, ea, eb) for ea, eb in zip(a.shape, b.shape))
         return SArr.fresh(shape, lambda idx: T.ite(c, ga(idx), gb(idx)), a.dtype)
     if isinstance(a, tuple) and isinstance(b, tuple) and len(a) == len(b):
         return tuple(ite_value(c, x, (lambda y=y: y)) for x, y in zip(a, b))
